@@ -13,6 +13,7 @@ CONSTANTS
   Parts = {TRUE, FALSE}
   MaxCancel = 1
   MaxFault = 1
+  Zeros = FALSE
   Dev = {}
   Record = FALSE
 VIEW View
